@@ -30,6 +30,10 @@ Record rcase := mkr {
   r_gt : list (list (Z * Z));         (* samples x variants: the two allele values *)
   r_eff : list (id * float);          (* requested effects (ID, beta) in order *)
   r_h2 : option float; r_env : option float; r_norm : bool; r_prev : option float;
+  r_refuse : option (Z * bool);       (* e2e only: the loader must refuse the genotypes with this error kind.  (k, false):
+                                         a missing call among the loaded cells - outside the property's quantifier;
+                                         (k, true): a repeat copy number that cannot be stored - r_gt holds the TRUE
+                                         copy numbers, a refusal is accepted and an answer is still checked *)
   r_obs : res obs
 }.
 
@@ -102,6 +106,31 @@ Definition noise_ok (formula : list Q -> option Q -> option Q -> Q -> Q) (c : rc
 
 Definition is_case (x : float) : bool := PrimFloat.eqb x 1%float.
 
+(* rows = (is a case, (liability, slack)).  "every case's liability >= every control's" up
+   to the slacks, in one pass: the smallest l + s among the cases bounds every control's
+   l - s (equivalent to the pairwise comparison, C09_liability_check_sound; linear instead
+   of quadratic in the number of samples) *)
+Fixpoint min_case (rows : list (bool * (Q * Q))) : option Q :=
+  match rows with
+  | [] => None
+  | (c, (l, s)) :: r =>
+      let m := min_case r in
+      if c then Some (match m with
+                      | Some x => if Qle_bool x (l + s) then x else (l + s)%Q
+                      | None => (l + s)%Q
+                      end)
+      else m
+  end.
+Definition liab_sep (rows : list (bool * (Q * Q))) : bool :=
+  match min_case rows with
+  | None => true
+  | Some m => forallb (fun '(cj, (lj, sj)) => cj || Qle_bool (lj - sj) m) rows
+  end.
+
+(* the property quantifies over prevalence in [0,1) *)
+Definition prev_in_domain (K : float) : bool :=
+  ffinite K && Qle_bool 0 (f2q0 K) && negb (Qle_bool 1 (f2q0 K)).
+
 (* quantitative: pt = g + eps;  case/control: exactly floor(K n) cases, every case's
    liability >= every control's.  exact = true: float liabilities fl(g + eps) and
    bit-identical sums (the model's prediction); exact = false: the property with
@@ -125,10 +154,11 @@ Definition pheno_ok (exact : bool) (c : rcase) (o : obs) (r : rep) : bool :=
           let slack := map (fun '(g, e) => if exact then 0%Q else (tol9 * (Qabs (f2q0 g) + Qabs (f2q0 e)))%Q) ge in
           let rows := combine cc (combine liab slack) in
           forallb (fun p => PrimFloat.eqb p 1%float || PrimFloat.eqb p 0%float) (rp_pt r)
-          && (count_true cc =? k)
-          && forallb (fun '(ci, (li, si)) =>
-                negb ci ||
-                forallb (fun '(cj, (lj, sj)) => cj || Qle_bool lj (li + si + sj)) rows) rows
+          && (match (if exact then cases_of k (Z.of_nat n) else Ok k) with
+              | Ok m => count_true cc =? m
+              | Err _ => false
+              end)
+          && liab_sep rows
       end
   end.
 
@@ -150,23 +180,57 @@ Definition columns_ok (exact : bool) (c : rcase) (o : obs) : bool :=
 Definition rng_call_ok (c : rcase) (r : rep) : bool :=
   fsame (rp_loc r) 0%float && (rp_size r =? Z.of_nat (nsamp c)).
 
+(* "eps is i.i.d. normal with mean 0 and variance exactly as documented", read structurally:
+   the one draw of the replicate asked for mean 0 (as a value: 0, 0.0 and -0.0 all do) and
+   one value per sample; the variance is noise_ok *)
+Definition rng_call_holds (c : rcase) (r : rep) : bool :=
+  ffinite (rp_loc r) && Qeq_bool (f2q0 (rp_loc r)) 0 && (rp_size r =? Z.of_nat (nsamp c)).
+
+(* the exception run raises, if any: a genotype ID held twice (index() -> ValueError), a
+   prevalence that is not a number (int(nan) -> ValueError; infinities are not generated) or
+   so far outside [0,1) that argpartition's kth is out of bounds; for e2e the refusal of the
+   loader comes first *)
+Definition expected_error (c : rcase) : option Z :=
+  match r_refuse c with
+  | Some (e, _) => Some e
+  | None =>
+      match run_error (r_gids c) with
+      | Some e => Some e
+      | None =>
+          match r_prev c with
+          | None => None
+          | Some K =>
+              match k_of K (Z.of_nat (nsamp c)) with
+              | None => Some E_Value
+              | Some k => match cases_of k (Z.of_nat (nsamp c)) with Err e => Some e | Ok _ => None end
+              end
+          end
+      end
+  end.
+
+(* the property's quantifier: pairwise distinct genotype IDs, prevalence in [0,1), every call present *)
 Definition in_domain (c : rcase) : bool :=
-  match run_error (r_gids c) with Some _ => false | None => true end.
+  match run_error (r_gids c) with Some _ => false | None => true end
+  && match r_prev c with Some K => prev_in_domain K | None => true end
+  && match r_refuse c with Some (_, false) => false | _ => true end.
 
 (* the property, on the implementation's output *)
+Definition holds_obs (c : rcase) (o : obs) : bool :=
+  z_spec_ok c o && genetic_ok c o
+  && forallb (fun r => rng_call_holds c r && noise_ok documented_noise c o r && pheno_ok false c o r) (o_reps o)
+  && columns_ok false c o.
+
 Definition holds_run (c : rcase) : bool :=
   if negb (in_domain c) then true else
-  match r_obs c with
-  | Err e => e =? E_Unobserved
-  | Ok o =>
-      z_spec_ok c o && genetic_ok c o
-      && forallb (fun r => noise_ok documented_noise c o r && pheno_ok false c o r) (o_reps o)
-      && columns_ok false c o
+  match r_refuse c, r_obs c with
+  | Some (k, _), Err e => (e =? k) || (e =? E_Unobserved)   (* a loud refusal of genotypes that cannot be represented *)
+  | None, Err e => e =? E_Unobserved
+  | _, Ok o => holds_obs c o                            (* an answer must be the documented one *)
   end.
 
 (* the model's prediction *)
 Definition agree_run (c : rcase) : bool :=
-  match run_error (r_gids c), r_obs c with
+  match expected_error c, r_obs c with
   | Some k, Err e => k =? e
   | None, Ok o =>
       (if r_norm c then opt_eqb zmat_eqb (o_d o) (Some (dos_of c))
@@ -182,7 +246,7 @@ Definition check_run (c : rcase) : bool * bool := (agree_run c, holds_run c).
 (* printed in replay files: found IDs, dosage, k, and (given the observed genetic
    component) the documented noise variance *)
 Definition model_run (c : rcase) :=
-  (run_error (r_gids c), ids_of c, dos_of c,
+  (expected_error c, ids_of c, dos_of c,
    match r_prev c with Some K => k_of K (Z.of_nat (nsamp c)) | None => None end,
    match r_obs c with
    | Ok o => Some (Qred (documented_noise (betas_of c) (oq (r_h2 c)) (oq (r_env c)) (gvar o)))
